@@ -27,7 +27,7 @@ def zeroVal (env : Env) : Nat → Ty → Val
     | .eitherRef t => Val.ctor "L" (zeroVal env fuel t)
     | .refT t => zeroVal env fuel t
     | .prim p => Prim.zero p
-    | .vmStack _ | .dictE _ => .nil
+    | .vmStack _ | .dictE _ _ => .nil
     | .encErr _ | .opaque _ => .nil
 where zeroFields (env : Env) : Nat → Fields → Val
   | 0, _ => .nil
@@ -72,6 +72,12 @@ def selectCtor : Ctors → List Bool → Outcome (String × Ty × Nat)
       else if tag.len > 64 then .err "too much bits for uint64"
       else if tag.val = bitsToNat (bits.take tag.len) then .ok (name, t, tag.len)
       else selectCtor rest bits
+
+/-- the value side of C05's codec parameter on the decoder side: `decoder.Unmarshal(leaf, &v)` on what is left of the
+leaf cell after the label -/
+def valueCodecDec (dec : Slice → Outcome (Val × Slice)) : Hashmap.Codec Val where
+  enc _ := .err "decoder only"
+  dec bits refs := (dec { bits := bits, refs := refs }).bind fun r => .ok r.1
 
 mutual
 
@@ -195,9 +201,21 @@ def decode (env : Env) : Nat → Ty → Slice → Outcome (Val × Slice)
       else do
         let (vs, s) ← decodeStack env fuel e depth s
         pure (Val.list vs, s)
-    | .dictE _ => do
+    | .dictE k t => do
+      -- HashmapE.UnmarshalTLB: Maybe ^(Hashmap n X); a pruned root decodes as the empty dictionary
       let (ne, s) ← s.readBit
-      if ne then .err "unmodelled" else pure (.nil, s)
+      if !ne then pure (.nil, s)
+      else do
+        let (r, s) ← s.nextRef
+        let rs := Slice.ofCell r
+        if rs.isPruned then pure (.nil, s)
+        else match keyWidth k with
+          | none => .err "bad key type"
+          | some n => do
+            let kvs ← Hashmap.unmarshal (valueCodecDec (fun vs => decode env fuel t vs)) n r
+            let ks ← mapMOutcome (fun (kv : Hashmap.Key × Val) =>
+              (decode env fuel k { bits := kv.1 }).bind fun r => .ok r.1) kvs
+            pure (dictVal ks (kvs.map (·.2)), s)
     | .encErr _ => .err "unmodelled"
     | .opaque _ => .err "unmodelled"
 
